@@ -8,7 +8,7 @@ inside the cell (exact for constant and linear section laws), independent of the
 import numpy as np
 from hypothesis import strategies as st
 
-from vf import cases, gen
+from vf import cases, gen, sim
 from vf.runner import Skip, SubCheck, require, target
 
 RULE = ("cases = model (euler1d, shallowwater, nozzle with a section law from 5 families) x per-equation source list (None or c0 + cx*x + sum cq_j*Q_j with generated "
@@ -87,7 +87,7 @@ def check_sources(case):
     prim, xf = _prim(md, case, mesh0)
     r0, q = _rhs(disc0, model0, mesh0, md, prim)
     if not all(np.all(np.isfinite(x)) for x in r0):
-        raise Skip("inadmissible_reconstruction (face state outside the admissible set)")
+        sim.nonfinite_operator(case["num"])
     model1, mesh1, disc1 = _operator(md, case, src)
     r1, _ = _rhs(disc1, model1, mesh1, md, prim)
     xc = 0.5 * (xf[1:] + xf[:-1])
@@ -134,7 +134,7 @@ def check_nozzle(case):
     prim, xf = _prim(md, case, meshE)
     rE, q = _rhs(discE, modelE, meshE, emd, prim)
     if not all(np.all(np.isfinite(x)) for x in rE):
-        raise Skip("inadmissible_reconstruction (face state outside the admissible set)")
+        sim.nonfinite_operator(case["num"])
     modelN, meshN, discN = _operator(md, case, None)
     rN, _ = _rhs(discN, modelN, meshN, md, prim)
     rho, u, p = prim
